@@ -299,6 +299,19 @@ func runC10(ctx *Ctx) error {
 		p := kit.Add(&RunPkg{Name: fmt.Sprintf("c10_%d", i), Doc: c10Doc(perms), Cfg: cfg})
 		cases = append(cases, cs{ms, perms, old, p})
 	}
+	// compositions that every run examines, in both merge modes (the random draw above is not relied on for them): members
+	// with additional properties of each kind next to a member that says nothing about them
+	for k, fx := range [][]string{{"addlTrue", "untyped"}, {"addlInt", "refA"}, {"addlTrue", "refA", "inline"}, {"addlFalse", "addlTrue"}, {"refA", "requiresA2"}} {
+		for _, old := range []bool{false, true} {
+			perms := permutations(fx)
+			var cfg codegen.Configuration
+			cfg.Generate.Models = true
+			cfg.OutputOptions.SkipPrune = true
+			cfg.Compatibility.OldMergeSchemas = old
+			p := kit.Add(&RunPkg{Name: fmt.Sprintf("c10_fx%d_%v", k, old), Doc: c10Doc(perms), Cfg: cfg})
+			cases = append(cases, cs{fx, perms, old, p})
+		}
+	}
 	// a member that is itself a composition and a union side by side (allOf next to oneOf): the union goes into the
 	// merged type with the rest
 	unionDoc := wDoc(J{}, J{"schemas": J{
